@@ -117,7 +117,7 @@ func c10Settle(sys ActorSystem, pids []*PID) error {
 // ---------------------------------------------------------------------------------------------- sequences
 
 type c10Op struct {
-	Op string `json:"op"` // watch unwatch stop poison passivate restart spawnchild
+	Op string `json:"op"` // watch unwatch stop poison passivate restart spawnchild suspend reinstate
 	W  int    `json:"w"`  // watcher / parent
 	A  int    `json:"a"`  // watchee / subject / new child index
 }
@@ -240,9 +240,15 @@ func c10RunCase(ctx context.Context, sys ActorSystem, c c10Case) c10Out {
 			opErr = Tell(ctx, w.pids[op.A], &PoisonPill{})
 		case "passivate":
 			// the passivation stop path (what the passivation manager calls when the actor has been idle)
-			if !w.pids[op.A].tryPassivation("verif") && w.pids[op.A].IsRunning() {
+			// (a reinstate makes the next passivation decision be skipped once: ask twice)
+			if !w.pids[op.A].tryPassivation("verif") && w.pids[op.A].IsRunning() && !w.pids[op.A].tryPassivation("verif") && w.pids[op.A].IsRunning() {
 				opErr = fmt.Errorf("tryPassivation refused")
 			}
+		case "suspend":
+			// what notifyParent does to an actor whose failure has no directive: registered, but not running
+			w.pids[op.A].suspend("verif")
+		case "reinstate":
+			w.pids[op.A].doReinstate()
 		case "restart":
 			opErr = w.pids[op.A].Restart(ctx)
 		case "spawnchild":
